@@ -1,4 +1,6 @@
 """C12 - middlewares gate admission and events: nothing passes that a middleware rejected."""
+import concurrent.futures as cf
+
 from lib.vlib import gZ, gN, gbool, glist, gpair, gstring_bytes
 
 HDR = "From SioV Require Import Base.GoSem Sio.Middleware Sio.MiddlewareCheck.\n"
@@ -281,7 +283,7 @@ def win_suite(ctx, vh, args):
 def run(ctx):
     q = ctx.quick
     ctx.rule = ("admission: every accept/reject vector (accept, error, string, structured data) for chains of 0..%d namespace "
-                "middlewares x 2-3 join patterns x {/, /chat}, 8 concurrent raw-protocol sessions and again (shorter chains) one at a time, "
+                "middlewares x 2 join patterns (none, random; 3 in the sequential run) x {/, /chat}, 8 concurrent raw-protocol sessions and again (shorter chains) one at a time, "
                 "several rejected CONNECTs then an accepted one per Engine.IO connection; plus a sample through the Go client; "
                 "forced windows: socket A parked in middleware g (every g, every chain of <=%d reaching g) while B is admitted/refused and "
                 "broadcasts are sent. "
@@ -300,8 +302,16 @@ def run(ctx):
     if vh is None:
         return
     k = 3 if q else 5
-    adm_suite(ctx, vh, "raw-conc8", ["-mode", "adm", "-maxlen", k, "-conc", 8, "-seed", ctx.seed, "-joinvariants", 3 if q else 2])
-    adm_suite(ctx, vh, "raw-seq", ["-mode", "adm", "-maxlen", 2 if q else 3, "-conc", 1, "-seed", ctx.seed + 1])
-    adm_suite(ctx, vh, "goclient", ["-mode", "admgo", "-maxlen", k, "-n", 12 if q else 64, "-seed", ctx.seed + 2])
-    win_suite(ctx, vh, ["-mode", "win", "-maxlen", 2 if q else 3, "-seed", ctx.seed + 4])
-    ev_suite(ctx, vh, ["-mode", "ev", "-maxlen", 2 if q else 3, "-seed", ctx.seed + 3])
+    suites = [
+        lambda: adm_suite(ctx, vh, "raw-conc8", ["-mode", "adm", "-maxlen", k, "-conc", 8, "-seed", ctx.seed, "-joinvariants", 2]),
+        lambda: adm_suite(ctx, vh, "raw-seq", ["-mode", "adm", "-maxlen", 2 if q else 3, "-conc", 1, "-seed", ctx.seed + 1]),
+        lambda: adm_suite(ctx, vh, "goclient", ["-mode", "admgo", "-maxlen", k, "-n", 12 if q else 64, "-seed", ctx.seed + 2]),
+        lambda: win_suite(ctx, vh, ["-mode", "win", "-maxlen", 2 if q else 3, "-seed", ctx.seed + 4]),
+        lambda: ev_suite(ctx, vh, ["-mode", "ev", "-maxlen", 2 if q else 3, "-seed", ctx.seed + 3]),
+    ]
+    # the suites are independent (own servers on port 0, own case files): run them side by side,
+    # the wall time is then that of the largest one; a failure of the machinery in any of them is raised
+    with cf.ThreadPoolExecutor(max_workers=len(suites)) as ex:
+        futs = [ex.submit(f) for f in suites]
+        for f in futs:
+            f.result()
